@@ -2,6 +2,7 @@
   SV.Proofs.Bic — BIC validation is the ISO 9362 predicate.
 -/
 import SV.Proofs.Clean
+import SV.Proofs.RegexPos
 import SV.Spec.Iso9362
 namespace SV
 open Spec
@@ -20,37 +21,6 @@ def expectedSwift : BicPattern :=
   A fixed-count pattern is determined by the class it demands at each position: `[A-Z]{4}[A-Z]{2}` and
   `[A-Z]{6}` are the same pattern.  The obligation on the live patterns is stated up to this
   equivalence, so that re-spelling a pattern in the source does not break the tie. -/
-
-def allFixed (items : List Item) : Bool := items.all (fun it => it.lo == it.hi)
-
-/-- The class demanded at each position. -/
-def expandItems : List Item → List CClass
-  | [] => []
-  | it :: t => List.replicate it.lo it.cls ++ expandItems t
-
-/-- Position-by-position match of a prefix, then the continuation. -/
-def posMatch (U : Unicode) : List CClass → Str → (Str → Bool) → Bool
-  | [], s, k => k s
-  | c :: cs, x :: xs, k => c.test U x && posMatch U cs xs k
-  | _ :: _, [], _ => false
-
-theorem matchRep_replicate (U : Unicode) (c : CClass) (k : Str → Bool) :
-    ∀ (n : Nat) (s : Str), matchRep (c.test U) n n s k = posMatch U (List.replicate n c) s k
-  | 0, s => by simp [matchRep, posMatch]
-  | n + 1, [] => by simp [matchRep, posMatch, List.replicate_succ]
-  | n + 1, x :: t => by
-    simp only [matchRep, List.replicate_succ, posMatch, Nat.add_sub_cancel, Nat.zero_lt_succ,
-      decide_true, Bool.and_true]
-    rw [matchRep_replicate U c k n t]
-
-theorem posMatch_append (U : Unicode) (k : Str → Bool) :
-    ∀ (a b : List CClass) (s : Str),
-      posMatch U (a ++ b) s k = posMatch U a s (fun r => posMatch U b r k)
-  | [], b, s => by simp [posMatch]
-  | c :: a, b, [] => by simp [posMatch]
-  | c :: a, b, x :: t => by
-    simp only [List.cons_append, posMatch]
-    rw [posMatch_append U k a b t]
 
 theorem goTail_pos (U : Unicode) :
     ∀ (items : List Item), allFixed items = true → ∀ s,
